@@ -500,7 +500,7 @@ class RandomGen:
             return b.node(kind=self.r.choice(['break', 'continue']), fn=fn)
         if r < 0.88 and not infinally:
             return b.node(kind='return', fn=fn, e=self.value(scope))
-        if r < 0.92 and not infinally:
+        if r < 0.92:
             return b.node(kind='raise', fn=fn, exc=self.r.choice([1, 2]))
         if r < 0.935 and self.dele:
             return b.node(kind='del', fn=fn, tgt=[self.r.choice(self.names)])
